@@ -95,6 +95,42 @@ def dijkstraAccept (g : Graph.G) (src : Nat) (ans : String) : Option String := I
     if t != src && !seen.contains t then return some s!"reachable-m{t}-has-no-entry"
   return none
 
+/-- scripted direction-dependent predicate of `filter_edges`, on (from module, to module, start gate) -/
+inductive Rule
+  | lt | gt | succ (n : Nat) | starts (l : List Nat)
+
+def parseRule (r : String) : Option Rule :=
+  if r = "lt" then some .lt
+  else if r = "gt" then some .gt
+  else match r.splitOn ":" with
+    | ["succ", n] => (n.toNat?).bind fun n => if n > 0 then some (.succ n) else none
+    | ["starts", l] => some (.starts (if l = "none" then [] else (l.splitOn ",").filterMap (ident 'g')))
+    | _ => none
+
+def Rule.keeps (r : Rule) (from_ to start : Nat) : Bool :=
+  match r with
+  | .lt => from_ < to
+  | .gt => from_ > to
+  | .succ n => to == (from_ + 1) % n
+  | .starts l => l.contains start
+
+/-- the filtered model view and the filtered abstract graph; `none`s: view root unknown / fuel -/
+def filteredViews (st : St) (view : String) (rule : Rule) : Option (Topo.T × Graph.G) :=
+  let g := st.graph
+  let base : Option (Topo.T × Graph.G) :=
+    if view = "topo" then some (Topo.current st.world, g)
+    else match (view.splitOn ":") with
+      | ["sp", r] =>
+        match ident 'm' r with
+        | some r =>
+          let reach := Graph.reachable g r
+          (Topo.spanned st.world .front r).map fun t => (t, Graph.induced g (fun x => reach.contains x))
+        | none => none
+      | _ => none
+  base.map fun (t, g) =>
+    (Topo.filterEdges t (fun fe => rule.keeps (t.nodes.getD fe.src 0) (t.nodes.getD fe.e.dst 0) fe.e.start),
+     Graph.filterEdges g (fun e => rule.keeps e.src e.dst e.start))
+
 structure Stats where
   queries : Nat := 0
   spanned : Nat := 0
@@ -104,6 +140,10 @@ structure Stats where
   maxedges : Nat := 0
   frontier : Nat := 0      -- spanned views whose root has >= 2 distinct neighbours
   far : Nat := 0           -- dijkstra answers with a target at distance >= 2
+  fviews : Nat := 0        -- filter_edges views queried
+  asym : Nat := 0          -- … that are not bidirectional (connected was queried on them)
+  asymconn : Nat := 0      -- … not bidirectional and yet connected
+  root0 : Nat := 0         -- … not connected although node 0 reaches every node
 
 def maxGate (body : List String) : Nat := Id.run do
   let mut n := 0
@@ -218,6 +258,57 @@ def runCase (c : Case) : String := Id.run do
           | none => pure ()
         if impl != ma then return failD "accepted" ma
       | _, _ => return s!"fail {id} op={i} kind=badline detail=[{line}]"
+    | ["fedges", view, rule] =>
+      match parseRule rule with
+      | none => return s!"fail {id} op={i} kind=badline detail=[{line}]"
+      | some rule =>
+        match filteredViews st view rule with
+        | none => return s!"fail {id} op={i} kind=badline detail=[{line}]"
+        | some (t, g) =>
+          let sa := describeSpec g
+          let ma := describeModel t
+          s := { s with queries := s.queries + 1, fviews := s.fviews + 1 }
+          if !Graph.bidirectional g then
+            s := { s with asym := s.asym + 1 }
+            if Graph.connected g then s := { s with asymconn := s.asymconn + 1 }
+          match t.nodes.head? with
+          | some n0 =>
+            if !Graph.connected g && g.mods.all (fun x => (Graph.reachable g n0).contains x) then
+              s := { s with root0 := s.root0 + 1 }
+          | none => pure ()
+          if view = "topo" then
+            if impl != sa then return failR sa ma
+          else
+            if impl == "panic" || canon impl != canon sa then return failR (canon sa) ma
+          if impl != ma then return failD sa ma
+    | ["fdijkstra", view, rule, m] =>
+      match parseRule rule, ident 'm' m with
+      | some rule, some m =>
+        match filteredViews st view rule with
+        | none => return s!"fail {id} op={i} kind=badline detail=[{line}]"
+        | some (t, g) =>
+          let ma := dijkstraModel t m
+          s := { s with queries := s.queries + 1, dijkstra := s.dijkstra + 1 }
+          if !g.mods.contains m then
+            if impl != "panic" then return failR "panic-unknown-node" ma
+          else
+            match (if impl == "panic" then some "panicked" else dijkstraAccept g m impl) with
+            | some why => return failR why ma
+            | none => pure ()
+          if impl != ma then return failD "accepted" ma
+      | _, _ => return s!"fail {id} op={i} kind=badline detail=[{line}]"
+    | ["fedgesfor", view, rule, m] =>
+      match parseRule rule, ident 'm' m with
+      | some rule, some m =>
+        match filteredViews st view rule with
+        | none => return s!"fail {id} op={i} kind=badline detail=[{line}]"
+        | some (t, g) =>
+          let sa := listOr "none" ";" ((g.edges.filter (·.src == m)).map showSpecEdge)
+          let ma := listOr "none" ";" ((Topo.edgesFor t m).map (showFull t))
+          s := { s with queries := s.queries + 1 }
+          if impl != sa then return failR sa ma
+          if impl != ma then return failD sa ma
+      | _, _ => return s!"fail {id} op={i} kind=badline detail=[{line}]"
     | ["filter", keep] =>
       let keep := parseMods keep
       let g := Graph.induced st.graph (fun x => keep.contains x)
@@ -228,9 +319,10 @@ def runCase (c : Case) : String := Id.run do
       if impl != sa then return failR sa ma
       if impl != ma then return failD sa ma
     | _ => return s!"fail {id} op={i} kind=badline detail=[{line}]"
-  -- non-trivial: >= 3 modules, >= 4 edges, a spanned view with >= 2 frontier nodes and a dijkstra with a far target
-  let nt := s.maxnodes ≥ 3 && s.maxedges ≥ 4 && s.frontier ≥ 1 && s.far ≥ 1
-  return s!"ok {id} nt={if nt then 1 else 0} ops={i} queries={s.queries} spanned={s.spanned} dijkstra={s.dijkstra} filters={s.filters} frontier={s.frontier} far={s.far} nodes={s.maxnodes} edges={s.maxedges}"
+  -- non-trivial: >= 3 modules, >= 4 edges, a spanned view with >= 2 frontier nodes, a dijkstra with a far target
+  -- … and >= 1 edge-filtered view that is not bidirectional (connected / bidirectional were queried on it)
+  let nt := s.maxnodes ≥ 3 && s.maxedges ≥ 4 && s.frontier ≥ 1 && s.far ≥ 1 && s.asym ≥ 1
+  return s!"ok {id} nt={if nt then 1 else 0} ops={i} queries={s.queries} spanned={s.spanned} dijkstra={s.dijkstra} filters={s.filters} frontier={s.frontier} far={s.far} nodes={s.maxnodes} edges={s.maxedges} fviews={s.fviews} asym={s.asym} asymconn={s.asymconn} root0={s.root0}"
 
 def main (stdin : IO.FS.Stream) : IO Unit := do
   let cases ← readCases stdin
